@@ -119,10 +119,43 @@ def run(ctx):
     ctx.rule = ("histories = TLC BFS of NodeGraph (2 params, 3 nodes, 3 start shapes, one per distinct abstract state) + seeded "
                 "random histories on 8-node DAGs, each executed %d times (map iteration order is random per call); "
                 "distinct by step list; all have >= 1 step after init" % reps)
+    if ctx.tier == "thorough":
+        selftest(ctx, vh, rnd)
     ctx.sample(bfs[len(bfs) // 2])
     ctx.sample({"random_first_steps": rnd[0]["steps"][:8]})
     ctx.assumptions += ["harness processors read all their inputs (a processor that skips an input leaves it stale forever; noted in DESIGN C11)",
                         "TLC evaluates NodeGraph/TraceNodeGraph correctly; execution counts come from the harness processor"]
+
+
+def selftest(ctx, vh, hists):
+    """Corrupt logged fields of an accepted trace; TLC must reject those lines."""
+    h = [x for x in hists if sum(1 for s in x["steps"] if s["op"] == "read") >= 2][:1]
+    if not h:
+        raise core.Infra("self-test: no history with two reads")
+    d = ctx.scratch("selftest")
+    hp = os.path.join(d, "h.ndjson")
+    core.write_ndjson(hp, h)
+    tp = os.path.join(d, "trace.ndjson")
+    core.run_vh(vh, ["ng-exec", "-in", hp, "-out", tp, "-reps", "1"])
+    rows = core.read_ndjson(tp)
+    reads = [i for i, r in enumerate(rows) if r["k"] == "read"]
+    rows[reads[0]]["val"] += "x"                      # stale / wrong value -> C11.Fresh
+    k = reads[-1]
+    for j in range(k, len(rows)):                      # a node "executed" although nothing changed -> C11.Minimal or Version
+        rows[j]["obs"]["execs"][0] += 1
+    core.write_ndjson(tp, rows)
+    cfgp = os.path.join(core.SPECS, "_TraceNG_selftest.cfg")
+    write_cfg(cfgp, h[0]["np"], h[0]["nn"], 0, [1], "trace")
+    try:
+        r = core.run_tlc(os.path.join(d, "v"), "TraceNodeGraph", os.path.basename(cfgp), files=[(tp, "trace.ndjson")], timeout=600)
+    finally:
+        os.remove(cfgp)
+    got = {(v["l"], p) for v in r.values if isinstance(v, dict) and "bad" in v for p in v["bad"]}
+    if (reads[0] + 1, "C11.Fresh") not in got:
+        raise core.Infra("self-test: corrupted read value not rejected (%s)" % sorted(got))
+    if not any(l == k + 1 and p in ("C11.Minimal", "C11.Version", "C11.Once") for l, p in got):
+        raise core.Infra("self-test: fabricated execution not rejected (%s)" % sorted(got))
+    ctx.extra["selftest_corruptions_rejected"] = 2
 
 
 def replay(ctx, path):
